@@ -151,3 +151,18 @@ TEXT["C08"] = _t("harness", "deterministic simulation with fault injection: dama
 TEXT["C19"] = _t("harness", "deterministic simulation with fault injection: garbage record headers at segment tails; allocation and read-request size observed across the recovering Open",
                  "Seeded unclean images whose tails claim arbitrary key/value lengths; the recovering Open must allocate and request reads in proportion to the bytes present, and discard the tail as in C08.",
                  "Header values sampled at boundaries and at random; measurement via runtime.MemStats and the FS seam.", "DESIGN.md 4/C19")
+
+SCHED_ASSUME = ["interleavings are explored at the granularity of lock acquisitions (every Lock/RLock/TryLock of DB.mu, maintenanceMu, ItemIterator.mu is a scheduling point) and, in runs with FS yields, of every file-system call; two memory accesses between two such points are never separated",
+                "schedules are sampled by a seeded PRNG (uniform or sticky), not enumerated"]
+PROPS["C07"] = dict(
+    level="exploration",
+    runs=dict(quick=6000, thorough=150000), budget_s=dict(quick=170, thorough=1700), gomaxprocs=4,
+    rule="one evaluation = one seeded concurrent run: 2-5 client tasks (20-120 calls; thorough up to 180) of Put/Delete/Get/GetAppend/Has on 2-8 keys with unique values, alongside Compact/Sync/Backup/Count/Items/FileSize tasks and, in half the runs, the real background worker driven by simulated ticks; "
+         "every interleaving decision made by the seeded scheduler; history stamped with the scheduler's event counter and checked with porcupine (register-with-delete per key), Count against linearization bounds, scans for truthfulness/completeness; "
+         "distinct_nontrivial = number of distinct schedule digests (hash of the sequence of (task, lock/FS operation) grants)",
+    real=REAL_SEQ + ["the database's own background worker goroutine", "sync.WaitGroup, context, channels, select (real, inside a testing/synctest bubble)"], stub=STUB_SCHED, assumptions=SCHED_ASSUME,
+    must_reach=dict(quick=["tick", "compacted_segments", "segment_removed", "context_switches", "lin_ops_checked"], thorough=["tick", "compacted_segments"]),
+)
+TEXT["C07"] = _t("sim+harness", "deterministic simulation: seeded scheduler owning every lock acquisition (and optionally every FS call) of the unmodified DB code incl. its background worker; histories checked with porcupine",
+                 "Seeded search over interleavings of concurrent clients, compaction, sync, backup, scans and the background worker; each recorded history must linearize against a per-key register-with-delete model; Illegal = violation, Unknown = counted as inconclusive.",
+                 "Schedules sampled; scheduling points = lock operations (+ FS calls in half the runs). porcupine v1.3.0 trusted. Data races proper are C10's REAL-mode clause.", "DESIGN.md 2.2, 4/C07")
